@@ -456,6 +456,13 @@ func Run(c *ev.Ctx) {
 						hasPeer = true
 					}
 				}
+				// the proxy gets these intentions out of service-intentions config entries: written as a client would after a
+				// read-modify-write (every source still carrying the precedence number another source shape had), normalized
+				// and flattened, they have to be the very list the program stands for
+				if got, want := renderIxns(viaEntries(set)), renderIxns(toIntentions(set)); got != want {
+					c.Violate("C14:config-entry-flattening-differs-from-the-program", fmt.Sprintf("intentions %v written as service-intentions entries (sources carrying stale precedence values) flatten to\n  %s\nthe precedence rules give\n  %s", set, got, want),
+						map[string]any{"program": fmt.Sprint(set)})
+				}
 				for _, isHTTP := range []bool{false, true} {
 					for _, dflt := range []bool{false, true} {
 						for _, withBundles := range []bool{true, false} {
@@ -533,4 +540,66 @@ func safeTranslate(ixns structs.SimplifiedIntentions, dflt, isHTTP bool, b []*pb
 		}
 	}()
 	return xds.VerifMakeRBACRules(ixns, dflt, localTD, "dc1", "default", isHTTP, b)
+}
+
+func renderIxns(l structs.SimplifiedIntentions) string {
+	var out []string
+	for _, x := range l {
+		a := string(x.Action)
+		if len(x.Permissions) > 0 {
+			a = fmt.Sprintf("l7(%d)", len(x.Permissions))
+		}
+		out = append(out, fmt.Sprintf("%s~%s->%s:%s/p%d", x.SourceName, x.SourcePeer, x.DestinationName, a, x.Precedence))
+	}
+	return strings.Join(out, " ")
+}
+
+// viaEntries builds the service-intentions config entries (one for the destination, one for the wildcard destination)
+// whose sources are the program's intentions, each source carrying a precedence value that fits another source shape,
+// and returns what Normalize + ToIntentions + the precedence sort make of them.
+func viaEntries(set []ixn) structs.SimplifiedIntentions {
+	byDst := map[string]*structs.ServiceIntentionsConfigEntry{}
+	for _, i := range set {
+		dst := "dest"
+		if i.dstWild {
+			dst = "*"
+		}
+		e := byDst[dst]
+		if e == nil {
+			e = &structs.ServiceIntentionsConfigEntry{Kind: structs.ServiceIntentions, Name: dst}
+			byDst[dst] = e
+		}
+		src := &structs.SourceIntention{Name: i.src, Peer: i.peer, Type: structs.IntentionSourceConsul}
+		// stale: the number the *other* source shape (exact vs wildcard) would have
+		src.Precedence = 8
+		if i.src == "*" {
+			src.Precedence = 9
+		}
+		switch i.action {
+		case "allow":
+			src.Action = structs.IntentionActionAllow
+		case "deny":
+			src.Action = structs.IntentionActionDeny
+		default:
+			for _, p := range i.perms {
+				src.Permissions = append(src.Permissions, p.def.Clone())
+			}
+		}
+		e.Sources = append(e.Sources, src)
+	}
+	var out structs.SimplifiedIntentions
+	for _, dst := range []string{"dest", "*"} {
+		e := byDst[dst]
+		if e == nil {
+			continue
+		}
+		if err := e.Normalize(); err != nil {
+			continue
+		}
+		for _, x := range e.ToIntentions() {
+			out = append(out, x)
+		}
+	}
+	sort.SliceStable(out, func(a, b int) bool { return structs.IntentionPrecedenceSorter(out).Less(a, b) })
+	return out
 }
